@@ -58,6 +58,7 @@ class ImperialistCompetitiveOptimization(OptimizationAbstract):
         candidate_empires = new_countries[:self._config.population_size]
         candidate_colonies = new_countries[self._config.population_size:]
 
+        self.__empires = []
         for ctr in candidate_empires:
             self.__empires.append(EmpireClass(ctr))
 
